@@ -1,0 +1,53 @@
+// Copyright (C) The Arvados Authors. All rights reserved.
+//
+// SPDX-License-Identifier: AGPL-3.0
+
+//go:build verif
+// +build verif
+
+// Machine-checked contracts (read by /verif/bin/govc; never compiled into
+// normal builds).  See /verif/DESIGN.md section 3 for the language.
+
+package dispatchcloud
+
+// adequate: the constraints of property C16, written from its statement.
+//@ spec func adequate(it arvados.InstanceType, needScratch int64, needRAM int64, needVCPUs int, preempt bool) bool = int64(it.Scratch) >= needScratch && int64(it.RAM) >= needRAM && it.VCPUs >= needVCPUs && it.Preemptible == preempt
+
+// sumTmp(d, v, j): total capacity of the "tmp" mounts among the first j keys of the map.
+//@ spec func sumTmp(d $dom[string], v $val[string]arvados.Mount, j int) int64
+//@ axiom forall d $dom[string], v $val[string]arvados.Mount, j int :: {sumTmp(d, v, j)} j <= 0 ==> sumTmp(d, v, j) == 0
+//@ axiom forall d $dom[string], v $val[string]arvados.Mount, j int :: {sumTmp(d, v, j)} j > 0 ==> sumTmp(d, v, j) == sumTmp(d, v, j-1) + ite(v[ekey(d, j-1)].Kind == "tmp", v[ekey(d, j-1)].Capacity, 0)
+
+//@ func estimateDockerImageSize property C16 pure
+//@   ensures !matches(collectionPDH, `^[0-9a-f]{32}\+(\d+)$`) ==> result == 0
+//@   ensures forall h string, n int64 :: matches(h, `[0-9a-f]{32}`) && n >= 0 && collectionPDH == h + "+" + itoa(n) ==> result == ite(n >= 122, ((n-80)/42)*67108864, 0)
+//@   ensures result >= 0
+
+//@ func EstimateScratchSpace property C16
+//@   ensures needScratch == needScratchOf(ctr)
+//@   loop 1: invariant needScratch == sumTmp(dom(ctr.Mounts), vals(ctr.Mounts), $i)
+//@   loop 1: invariant ctr == old(ctr)
+
+// The three quantities of the property statement, as macros over the heap.
+//@ spec macro needScratchOf(ctr) int64 = max(sumTmp(dom(ctr.Mounts), vals(ctr.Mounts), len(ctr.Mounts)), estimateDockerImageSize(ctr.ContainerImage)) + estimateDockerImageSize(ctr.ContainerImage)
+//@ spec macro needRAMOf(cc, ctr) int64 = ((ctr.RuntimeConstraints.RAM + ctr.RuntimeConstraints.KeepCacheRAM + int64(cc.Containers.ReserveExtraRAM)) * 100) / 95
+//@ spec macro fits(it, cc, ctr) bool = adequate(it, needScratchOf(ctr), needRAMOf(cc, ctr), ctr.RuntimeConstraints.VCPUs, ctr.SchedulingParameters.Preemptible)
+
+//@ func ChooseInstanceType property C16 arith checked
+//@   requires 0 <= ctr.RuntimeConstraints.RAM && ctr.RuntimeConstraints.RAM <= 1125899906842624
+//@   requires 0 <= ctr.RuntimeConstraints.KeepCacheRAM && ctr.RuntimeConstraints.KeepCacheRAM <= 1125899906842624
+//@   requires 0 <= int64(cc.Containers.ReserveExtraRAM) && int64(cc.Containers.ReserveExtraRAM) <= 1125899906842624
+//@   requires ctr.RuntimeConstraints.VCPUs >= 0
+//@   ensures len(cc.InstanceTypes) == 0 ==> err == ErrInstanceTypesNotConfigured
+//@   ensures err == nil ==> fits(best, cc, ctr)
+//@   ensures err == nil ==> forall k string :: has(cc.InstanceTypes, k) && fits(cc.InstanceTypes[k], cc, ctr) ==> best.Price <= cc.InstanceTypes[k].Price
+//@   ensures err == nil ==> exists k string :: has(cc.InstanceTypes, k) && cc.InstanceTypes[k] == best
+//@   ensures (exists k string :: has(cc.InstanceTypes, k) && fits(cc.InstanceTypes[k], cc, ctr)) ==> err == nil
+//@   ensures len(cc.InstanceTypes) > 0 && err != nil ==> istype(err, ConstraintsNotSatisfiableError) && len(unbox(err, ConstraintsNotSatisfiableError).AvailableTypes) == len(cc.InstanceTypes)
+//@   loop 1: invariant needScratch == needScratchOf(ctr) && needRAM == needRAMOf(cc, ctr) && needVCPUs == ctr.RuntimeConstraints.VCPUs && cc == old(cc) && ctr == old(ctr) && err == nil
+//@   loop 1: invariant ok ==> fits(best, cc, ctr)
+//@   loop 1: invariant ok ==> exists j int :: 0 <= j && j < $i && best == mapat(cc.InstanceTypes, j)
+//@   loop 1: invariant ok ==> forall j int :: 0 <= j && j < $i && fits(mapat(cc.InstanceTypes, j), cc, ctr) ==> best.Price <= mapat(cc.InstanceTypes, j).Price
+//@   loop 1: invariant !ok ==> forall j int :: 0 <= j && j < $i ==> !fits(mapat(cc.InstanceTypes, j), cc, ctr)
+//@   loop 1: invariant !ok ==> best.RAM == 0 && best.VCPUs == 0
+//@   loop 2: invariant len(availableTypes) == $i && cc == old(cc) && !ok && err == nil
